@@ -477,6 +477,10 @@ impl Worker {
             return;
         }
 
+        // A rollover moved us to a fresh segment: a failed write must be truncated back to
+        // where this transaction starts in *that* segment
+        let write_offset = writer_set.writer.write_offset();
+
         let bytes_since_sync = writer_set.bytes_since_sync;
         let res = writer_set.handle_write(WriteOperation {
             partition_key,
